@@ -294,6 +294,10 @@ func (s *server) publishLog(ctx context.Context, topic string, req *pushLogReque
 		return errors.Wrap("failed to marshal pubsub message", err)
 	}
 
+	if simEnabled && simActive() {
+		return simPublish(ctx, s, topic, data)
+	}
+
 	log.InfoContext(ctx, "Publish log",
 		corelog.String("PeerID", s.peer.PeerID().String()),
 		corelog.String("Topic", topic))
